@@ -422,6 +422,20 @@ func (m *Monitors) c02(o *Op, res string, f *stepFacts, pre *Pre, s *Snap, bal m
 		at := a.atomOfAddr([]byte(dest))
 		if d := new(big.Int).Sub(getBal(bal, at), getBal(pre.bal, at)); d.Cmp(paid) != 0 {
 			m.fail("C02", "withdraw of %s credited %s to the withdrawal address %d", paid, d, at)
+			m.fail("C13", "withdraw of %s credited %s to the withdrawal address %d of owner %d (the owner itself unless it has set another)", paid, d, at, o.Owner)
+		}
+		// C13: exactly that provider's earnings, or exactly the owner's total
+		m.evals["C13.withdraw"]++
+		wantPaid := big0()
+		if o.Prov != 0 {
+			if e := pre.snap.Earned[string(a.addr(o.Prov))]; e != nil {
+				wantPaid = e
+			}
+		} else if e := pre.snap.OwnerEarned[string(a.addr(o.Owner))]; e != nil {
+			wantPaid = e
+		}
+		if !f.k3step && !(m.rel != nil && m.rel.k3any) && !m.k5 && paid.Cmp(wantPaid) != 0 {
+			m.fail("C13", "withdraw by %d for provider %d paid %s, the records said %s", o.Owner, o.Prov, paid, wantPaid)
 		}
 		for p, e := range pre.snap.Earned {
 			now := s.Earned[p]
@@ -433,6 +447,7 @@ func (m *Monitors) c02(o *Op, res string, f *stepFacts, pre *Pre, s *Snap, bal m
 			}
 			if now.Cmp(e) != 0 && pre.snap.Owners[p] != string(a.addr(o.Owner)) {
 				m.fail("C02", "withdraw by %d took the earnings of %d, owned by someone else", o.Owner, a.atomOfAddr([]byte(p)))
+				m.fail("C13", "withdraw by %d reset the earnings of %d, owned by someone else", o.Owner, a.atomOfAddr([]byte(p)))
 			}
 		}
 		if feeColl.Cmp(pre.fee) != 0 {
@@ -671,6 +686,11 @@ func (m *Monitors) rightful(o *Op, pre *Pre) (ok bool, meaningful bool, what str
 		}
 		own, found := ps.Owners[string(a.addr(o.Prov))]
 		if !found {
+			// the owner this monitor has SEEN for the provider earlier in the history stays its owner for life,
+			// whatever became of the stored record
+			if seen, ok := m.provOwner[string(a.addr(o.Prov))]; ok {
+				return seen == signer, true, "provider's owner (as first registered)"
+			}
 			return true, false, ""
 		}
 		return own == signer, true, "provider's owner"
@@ -679,6 +699,9 @@ func (m *Monitors) rightful(o *Op, pre *Pre) (ok bool, meaningful bool, what str
 			return true, false, ""
 		}
 		own, found := ps.Owners[string(a.addr(o.Prov))]
+		if seen, ok := m.provOwner[string(a.addr(o.Prov))]; ok && (!found || own != seen) {
+			return seen == signer, true, "provider's owner (as first registered)"
+		}
 		if !found {
 			// a provider nobody owns has no rightful withdrawer
 			return false, true, "provider's owner (provider unowned)"
